@@ -17,6 +17,8 @@ const (
 	c18Done0   = 20 // +j: job j finished
 	c18Enq0    = 30 // +j: the Enqueue call containing job j has returned
 	c18Ord0    = 40 // +j: start order index of job j (1-based)
+	c18LastQ   = 60 // last counts reported to the WatchState callback
+	c18LastR   = 61
 )
 
 func concBody(producers [][]int, limit int, withIdle, withWatch, slowJobs bool) func() {
@@ -183,6 +185,8 @@ func concBodyNil(producers [][]int, limit int, withIdle, withWatch, slowJobs boo
 				label("WatchState")
 				err := q.WatchState(wctx, nil, func(queued, running int) (bool, error) {
 					checkCounts("WatchState", queued, running)
+					vsched.CtrSet(c18LastQ, int64(queued))
+					vsched.CtrSet(c18LastR, int64(running))
 					return true, nil
 				})
 				label("")
@@ -199,6 +203,9 @@ func concBodyNil(producers [][]int, limit int, withIdle, withWatch, slowJobs boo
 		}
 		if vsched.CountParked("WaitIdle") > 0 {
 			fail("C18.waitidle-stuck", "WaitIdle still parked although every job has finished")
+		}
+		if withWatch && vsched.CountParked("WatchState") > 0 && (vsched.Ctr(c18LastQ) != 0 || vsched.Ctr(c18LastR) != 0) {
+			fail("C18.watch-stale", "every job has finished and the watcher is waiting for the next change, but the last state its callback was shown is queued=%d running=%d: a change was not reported", vsched.Ctr(c18LastQ), vsched.Ctr(c18LastR))
 		}
 		if limit == 1 {
 			// FIFO: jobs of one producer start in enqueue order
@@ -225,6 +232,49 @@ func concBodyNil(producers [][]int, limit int, withIdle, withWatch, slowJobs boo
 }
 
 func init() {
+	eng.Register(&eng.Scenario{
+		Name: "conc-idle-cancel", Props: []string{"C18"}, MustFinish: true, ObsNames: stdObs,
+		Doc:   "ConcurrentQueue (limit 1 or unlimited, choice) with one job running behind a gate and (choice) a second one queued: a WaitIdle caller whose context is cancelled while the job runs; the gate opens only once everything is quiet: WaitIdle returns context.Canceled - nil only if every job had finished when it returned",
+		Quick: eng.Bounds{PB: 2}, Thorough: eng.Bounds{PB: 3},
+		Body: func() {
+			limit := vsched.Choose(2)
+			two := vsched.Choose(2) == 1
+			g, gF := &vsched.Gate{}, &vsched.Gate{}
+			phases(gates(g), gates(gF))
+			job := func(j int) func() {
+				return func() {
+					vsched.CtrAdd(c18Ran0+j, 1)
+					g.Wait()
+					vsched.CtrSet(c18Done0+j, 1)
+				}
+			}
+			q := conc.NewConcurrentQueue(limit)
+			q.Enqueue(job(0))
+			if two {
+				q.Enqueue(job(1))
+			}
+			ctx, cancel := context.WithCancel(context.Background())
+			T("I", func() {
+				label("WaitIdle")
+				err := q.WaitIdle(ctx, nil)
+				label("")
+				done := vsched.Ctr(c18Done0) != 0 && (!two || vsched.Ctr(c18Done0+1) != 0)
+				switch {
+				case err == nil && !done:
+					fail("C18.waitidle-early", "WaitIdle returned nil (its context was cancelled) although a job is still running")
+				case err == context.Canceled && vsched.Ctr(c18Cancel) == 0:
+					fail("C18.waitidle-error", "WaitIdle returned context.Canceled although its context is live")
+				case err != nil && err != context.Canceled:
+					fail("C18.waitidle-error", "WaitIdle returned %v", err)
+				}
+			})
+			T("C", func() { vsched.CtrSet(c18Cancel, 1); cancel() })
+			gF.Wait()
+			if qd, rn := q.Enqueue(); qd != 0 || rn != 0 {
+				fail("C18.counts", "idle queue reports queued=%d running=%d", qd, rn)
+			}
+		},
+	})
 	reg := func(name, doc string, q, t int, body func()) {
 		eng.Register(&eng.Scenario{Name: name, Props: []string{"C18"}, MustFinish: true, ObsNames: stdObs, Doc: doc,
 			Quick: eng.Bounds{PB: q}, Thorough: eng.Bounds{PB: t}, Body: body})
